@@ -340,6 +340,48 @@ func init() {
 		finish(x, n, ss, fmt.Sprintf("nv=%d", nv))
 	})
 
+	// S-elected-blocked: member 1 is elected leader of view 1 by three votes and then sits in RequestNewBlockProposal,
+	// which only returns on cancellation. ONE timer expiry is allowed: either the (h1,v0) timer fires before the election
+	// (its trigger may reach the main loop after the node has moved to view 1: stale, must change nothing), or the
+	// (h1,v1) timer fires afterwards (legitimately cancels the call). The context of the current position must not be
+	// cancelled by the stale trigger of the older view (C15 third clause; C19 "no trigger of the old pair is acted upon").
+	registerBoth("S-elected-blocked", []string{"C15", "C19"}, 1, 3, 4, func(x *X, cancel bool) {
+		n := newNode(x, 1)
+		n.BlockReq[1] = true
+		n.Boot()
+		s := x.S
+		v0 := n.fac(0, nil).CreateViewChangeMessage(1, 1, nil).ToConsensusRawMessage()
+		v2 := n.fac(2, nil).CreateViewChangeMessage(1, 1, nil).ToConsensusRawMessage()
+		v3 := n.fac(3, nil).CreateViewChangeMessage(1, 1, nil).ToConsensusRawMessage()
+		s.Thread("voters", func() {
+			n.M.HandleConsensusMessage(n.Ctx, v2)
+			n.M.HandleConsensusMessage(n.Ctx, v3)
+			n.M.HandleConsensusMessage(n.Ctx, v0)
+		})
+		addCancel(n, cancel)
+		if !s.Run(20000) {
+			x.Bad("C16", "livelock", "step horizon reached")
+		}
+		if !cancel {
+			firedV1 := false
+			for _, t := range s.Timers {
+				if t.Fired && t.D == 2*time.Second {
+					firedV1 = true
+				}
+			}
+			for _, c := range n.SpiCalls {
+				if c.Kind == "request" && c.Height == 1 && c.Ctx.Err() != nil && !firedV1 {
+					x.Bad("C15", "current-context-cancelled-by-stale-event", "the context of RequestNewBlockProposal(h1,v1) was cancelled although the only timer that expired is the one of the superseded pair (h1,v0) (events %v)", tail(n.Events, 8))
+					x.Bad("C19", "stale-trigger-acted-upon", "the trigger of the superseded pair (h1,v0) cancelled the proposal of view 1 (events %v)", tail(n.Events, 8))
+				}
+			}
+			if v := uint64(n.M.State().View()); v > 1 && !firedV1 {
+				x.Bad("C19", "view-advanced-without-expiry", "view is %d although the (h1,v1) timer never expired", v)
+			}
+		}
+		finish(x, n, nil, "")
+	})
+
 	// S-commit-error: the consumer's commit callback fails; the node must stay at its height, keep its state
 	// consistent and commit again when asked to sync.
 	registerBoth("S-commit-error", []string{"C13"}, 1, 3, 4, func(x *X, cancel bool) {
